@@ -11,11 +11,14 @@ import (
 // ---------------------------------------------------------------------------------------------
 // C06 - explicit enumeration of operation sequences against a reference queue model.
 //
-// Operations: E (append an event), W (raw write), T (let the worker deliver exactly one item).
+// Operations: E (append an event), W (raw write), T (let the appender take exactly one item).
 // All sequences up to depth 6 (thorough 7) from initial occupancies 100, 99, 98, 1, 0 for each
 // policy. The worker is single-stepped through a token-gated appender; after every operation the
-// harness waits for quiescence and compares delivered sequence, discard counter and "did the
-// submitting call return" with the model; at the end everything is drained and compared again.
+// harness waits for quiescence and checks the discard counter, "did the submitting call return" and
+// the number of items in the system against what the policy allows; at the end everything is drained:
+// order, duplicates, conservation and the victim of every overflow. The verdict does not depend on how
+// many items the worker holds between receiving and delivering (a one-item-worker model is also run;
+// whether the implementation matches it step by step is recorded as an observation only).
 // ---------------------------------------------------------------------------------------------
 
 type qModel struct {
@@ -275,31 +278,137 @@ func dirScenario(d dirMember) *zzvrt.Scenario {
 				return errS, []zzvrt.Violation{{Clause: "setup", Key: key, Detail: errS}}
 			}
 			var v []zzvrt.Violation
-			cmp := func(step string, got, want snap) {
-				if strings.Join(got.delivered, ",") != strings.Join(want.delivered, ",") {
-					v = append(v, zzvrt.Violation{Clause: "queue-model-delivered", Key: key, Detail: fmt.Sprintf("%s: delivered %v, model %v", step, tail(got.delivered), tail(want.delivered))})
+			fail := func(clause, detail string) { v = append(v, zzvrt.Violation{Clause: clause, Key: key, Detail: detail}) }
+			// The oracle is written in terms of what the statement fixes, NOT of how many items the worker
+			// holds between receiving and delivering them (one in the pinned tree; a worker that drains in
+			// batches holds more, and the buffer then has room earlier than a one-item model says). With
+			// inflight = items accepted and neither delivered nor discarded: the buffer holds at most
+			// `inflight` items, so "inflight < capacity" means there certainly is room, and a sane worker holds
+			// at most maxHold items, so "inflight > capacity + maxHold" means a Block call did not wait.
+			const capacity, maxHold = 100, 64
+			exact := true // does the run also match the one-item-worker model step by step? (recorded, not a verdict)
+			all := make([]string, 0, d.k+len(ids))
+			for i := 0; i < d.k; i++ {
+				all = append(all, fmt.Sprintf("W:p%d", i))
+			}
+			subAt := map[string]int{}
+			for i, id := range ids {
+				if id != "" {
+					all = append(all, id)
+					subAt[id] = i
 				}
-				if got.discarded != want.discarded {
-					v = append(v, zzvrt.Violation{Clause: "queue-model-counter", Key: key, Detail: fmt.Sprintf("%s: discard counter %d, model %d", step, got.discarded, want.discarded)})
+			}
+			prevCtr, prevInflight, submitted := 0, d.k, 0
+			droppedOnArrival := map[string]bool{}
+			var pendingBlock string
+			for i := range d.ops {
+				if i >= len(obsSnaps) {
+					break
 				}
-				for id, r := range want.returned {
-					if r && !got.returned[id] {
-						v = append(v, zzvrt.Violation{Clause: "call-did-not-return", Key: key, Detail: fmt.Sprintf("%s: submitting call for %s has not returned (model: returns)", step, id)})
+				o := obsSnaps[i]
+				step := fmt.Sprintf("after op %d (%c)", i, d.ops[i])
+				if i < len(snaps) {
+					w := snaps[i]
+					if strings.Join(o.delivered, ",") != strings.Join(w.delivered, ",") || o.discarded != w.discarded || len(o.returned) != len(w.returned) {
+						exact = false
 					}
 				}
-				for id := range got.returned {
-					if !want.returned[id] {
-						v = append(v, zzvrt.Violation{Clause: "call-returned-early", Key: key, Detail: fmt.Sprintf("%s: call for %s returned although the model says it blocks", step, id)})
+				bump := o.discarded - prevCtr
+				id := ids[i]
+				if id == "" { // 'T'
+					if bump != 0 {
+						fail("queue-model-counter", fmt.Sprintf("%s: the discard counter moved by %d while nothing was submitted", step, bump))
+					}
+				} else {
+					submitted++
+					if bump < 0 || bump > 1 {
+						fail("queue-model-counter", fmt.Sprintf("%s: the discard counter moved by %d during one submission", step, bump))
+					}
+					if bump > 0 && (d.policy == log.BufferFullPolicyBlock || prevInflight < capacity) {
+						fail("discarded-although-not-full", fmt.Sprintf("%s: %s: the discard counter moved although only %d items were in the system (capacity %d, policy %s)", step, id, prevInflight, capacity, policyName(d.policy)))
+					}
+					if bump > 0 && d.policy == log.BufferFullPolicyDiscard {
+						droppedOnArrival[id] = true
+					}
+					switch {
+					case d.policy != log.BufferFullPolicyBlock:
+						if !o.returned[id] {
+							fail("call-did-not-return", fmt.Sprintf("%s: the call for %s has not returned (the discard policies never wait)", step, id))
+						}
+					case !o.returned[id]:
+						if prevInflight < capacity {
+							fail("call-did-not-return", fmt.Sprintf("%s: Block: the call for %s has not returned although only %d items were in the system (capacity %d)", step, id, prevInflight, capacity))
+						}
+						pendingBlock = id
+					}
+				}
+				nret := 0
+				for rid := range o.returned {
+					if _, ok := subAt[rid]; ok {
+						nret++
+					}
+				}
+				inflight := d.k + nret - o.discarded - len(o.delivered)
+				if d.policy == log.BufferFullPolicyBlock && inflight > capacity+maxHold {
+					fail("block-did-not-wait", fmt.Sprintf("%s: Block: %d items accepted and not yet delivered (capacity %d): a call returned without space", step, inflight, capacity))
+				}
+				if pendingBlock != "" && !o.returned[pendingBlock] && inflight < capacity {
+					fail("call-did-not-return", fmt.Sprintf("%s: Block: the call for %s is still waiting although only %d items are in the system", step, pendingBlock, inflight))
+				}
+				if pendingBlock != "" && o.returned[pendingBlock] {
+					pendingBlock = ""
+				}
+				prevCtr, prevInflight = o.discarded, inflight
+			}
+			// after Stop: order, duplicates, conservation, victims
+			fin := obsFinal
+			pos := map[string]int{}
+			for i, id := range all {
+				pos[id] = i
+			}
+			last, seenD := -1, map[string]bool{}
+			for _, id := range fin.delivered {
+				p, ok := pos[id]
+				switch {
+				case !ok:
+					fail("queue-model-delivered", fmt.Sprintf("after Stop: unknown item %s delivered (delivered %v)", id, tail(fin.delivered)))
+				case seenD[id]:
+					fail("queue-model-delivered", fmt.Sprintf("after Stop: %s delivered twice", id))
+				case p < last:
+					fail("queue-model-delivered", fmt.Sprintf("after Stop: %s delivered after a younger item of the same producer (delivered %v)", id, tail(fin.delivered)))
+				}
+				if ok && p > last {
+					last = p
+				}
+				seenD[id] = true
+			}
+			if len(fin.delivered)+fin.discarded != len(all) {
+				fail("queue-model-counter", fmt.Sprintf("after Stop: delivered %d + discarded %d != submitted %d", len(fin.delivered), fin.discarded, len(all)))
+			}
+			for _, id := range all {
+				_, isSub := subAt[id]
+				switch d.policy {
+				case log.BufferFullPolicyBlock:
+					if !seenD[id] {
+						fail("queue-model-delivered", fmt.Sprintf("after Stop: Block: %s was never delivered", id))
+					}
+				case log.BufferFullPolicyDiscard:
+					if seenD[id] == droppedOnArrival[id] {
+						fail("queue-model-delivered", fmt.Sprintf("after Stop: Discard: %s delivered=%v although the counter moved during its submission=%v (only the arriving item may be dropped)", id, seenD[id], droppedOnArrival[id]))
+					}
+				default:
+					if isSub && !seenD[id] {
+						fail("queue-model-delivered", fmt.Sprintf("after Stop: DiscardOldest: the arriving item %s was dropped while older items were buffered", id))
+					}
+					if !isSub && !seenD[id] && pos[id] >= fin.discarded+maxHold {
+						fail("queue-model-delivered", fmt.Sprintf("after Stop: DiscardOldest: %s was dropped although at least %d older items were buffered", id, pos[id]))
 					}
 				}
 			}
-			for i := range snaps {
-				if i < len(obsSnaps) {
-					cmp(fmt.Sprintf("after op %d (%c)", i, d.ops[i]), obsSnaps[i], snaps[i])
-				}
+			if strings.Join(fin.delivered, ",") != strings.Join(final.delivered, ",") || fin.discarded != final.discarded {
+				exact = false
 			}
-			cmp("after Stop", obsFinal, final)
-			return fmt.Sprintf("%v|%d", tail(obsFinal.delivered), obsFinal.discarded), v
+			return fmt.Sprintf("%v|%d|one-item-worker-model=%v", tail(obsFinal.delivered), obsFinal.discarded, exact), v
 		},
 	}
 }
